@@ -3,7 +3,6 @@ package c12
 import (
 	"bytes"
 	"fmt"
-	"os"
 	"testing"
 
 	"github.com/dappledger/AnnChain/gemmill/consensus/pbft"
@@ -69,11 +68,8 @@ func fireNewest(net *sim.Net, n *sim.Node) bool {
 }
 
 func runScript(c ScriptCase, x *h.Ctx) {
-	dir, err := os.MkdirTemp("", "c12s-")
-	if err != nil {
-		panic(err)
-	}
-	defer os.RemoveAll(dir)
+	dir, doneDir := sim.TempDir("c12s-")
+	defer doneDir()
 	ps := make([]int64, c.N)
 	for i := range ps {
 		ps[i] = 1
